@@ -16,22 +16,11 @@ and hands out entries that carry the spent values.
 namespace Ord.Index.NoPanic
 open Ord Ord.Index Outcome Sched
 
-/-- the failure sites of the sat / address / inscription pass that are **not yet** discharged on
-valid chains (shrinks as the lift proceeds; `[]` = C16 proved) -/
-def remainingSites : List String := [
-  "insufficient inputs for transaction outputs",
-  "total_input_value - total_output_value",
-  "total_input_value - output_value",
-  "self.reward - output_value",
-  "calculate_sat: unreachable!()",
-  "id_to_sequence_number.get(id).unwrap()",
-  "sequence_number_to_entry.get(initial).unwrap()",
-  "sequence_number_to_entry.get(sequence_number).unwrap()",
-  "sequence_number_to_entry.get(parent_sequence_number).unwrap()",
-  "sequence_number_to_entry.get(&sequence_number).unwrap()",
-  "inscription count try_into::<i32>().unwrap()"]
-
-abbrev Rm := remainingSites
+/-- the failure sites of the sat / address / inscription pass that are **not** discharged on valid
+chains.  The lift (`IndexLiftNoPanic{Inv,Scan,Uil,Ins,Tx,Block,Chain}.lean`) discharges all 13 sites of
+`utxoResidualSites`, so the list is empty: every lemma of the lift is stated as "the function returns
+`ok`", not as "it panics only at a site of a residual list". -/
+def remainingSites : List String := []
 
 def EntryRel (cfg : Cfg) (n v : Nat) (e : UtxoEntry) : Prop :=
   e.totalValue cfg = v ∧ ∀ p ∈ e.ins, p.1 < n
